@@ -4,6 +4,7 @@ import concurrent.futures as cf
 import itertools
 import json
 import os
+import shutil
 import subprocess
 import time
 from gen_check import *  # noqa
@@ -265,6 +266,10 @@ class BigProject:
     Class 'l' is a second name of an over-long file: the symlink legacy/fNN.rs -> ../src/fMM.rs (MM = the first over-long
     regular file of the project; a plain 3-line file when there is none). Files below legacy/ have a content rule of their
     own (max_lines = 1000), so the alias passes while the real name fails: one file, two mentions, two verdicts.
+    Class 'm' is an over-long file (12 lines) at a path the baseline does NOT record, while the baseline records the path
+    src/wasNN.rs - which no longer exists - with exactly this file's line count and SHA-256 (the file was renamed, or a copy of
+    a deleted file was added): an entry is the entry of its PATH, so the file is an unrecorded violation. A project with an 'm'
+    file always has a baseline (baseline index None is read as the empty list).
     Every file gets an old mtime (not racy-clean), so the in-memory SLOC cache is really used."""
     TWIN = "# generated line\n" * 12
     OLD = 1577836800
@@ -295,7 +300,7 @@ class BigProject:
                 continue
             if ch != "l":
                 self.resize(p, ch)
-        targets = [i for i, c in enumerate(sizes) if c in "oOgkN"]
+        targets = [i for i, c in enumerate(sizes) if c in "oOgkNm"]
         for i, (p, ch) in enumerate(zip(self.paths, sizes)):
             if ch != "l":
                 continue
@@ -309,6 +314,8 @@ class BigProject:
                 self.resize(p, "u")
                 self.res[p]["limit"] = 1000
         self.bl = None
+        if baseline_idx is None and "m" in sizes:
+            baseline_idx = []
         if baseline_idx is not None:
             self.bl = {}
             for i in baseline_idx:
@@ -323,6 +330,12 @@ class BigProject:
                 self.bl["src/gone%02d.rs" % g] = ("C", 30, "")
             write_disk(self.sb.proj, self.bl)
         self.ghost_keys = ["src/gone%02d.rs" % g for g in range(ghosts)] if baseline_idx is not None else []
+        for i, ch in enumerate(sizes):
+            if ch == "m":       # the recorded path is gone; its entry carries the figures of the file now at paths[i]
+                self.bl["src/was%02d.rs" % i] = ("C", self.res[self.paths[i]]["code"], self.res[self.paths[i]]["hash"])
+                self.ghost_keys.append("src/was%02d.rs" % i)
+        if self.bl is not None and "m" in sizes:
+            write_disk(self.sb.proj, self.bl)
         self.last_disk = None
         self.spawns = 0
 
@@ -330,7 +343,7 @@ class BigProject:
         if ch in "yr":
             text, n = self.TWIN, (0 if ch == "y" else 12)
         else:
-            n = SIZE["o" if ch == "N" else (self.NOW_REC[ch][0] if ch in self.NOW_REC else ch)]
+            n = SIZE["o" if ch in "Nm" else (self.NOW_REC[ch][0] if ch in self.NOW_REC else ch)]
             text = body(p, n)
         fp = self.sb.write(p, text)
         os.utime(fp, (self.OLD, self.OLD))
@@ -350,15 +363,21 @@ class BigProject:
             r["hash"] = self.res.get(r["path"], {}).get("hash", "")
         return rc, obs, err
 
-    def run(self, ff, files=None, threads=1, wae=False, wo=False, ratchet=None, update=None):
-        fl = {"b": self.bl is not None, "ff": ff and not self.ff_cfg, "wae": wae, "wo": wo}
+    def run(self, ff, files=None, threads=1, wae=False, wo=False, ratchet=None, update=None, nob=False):
+        """[nob]: the default baseline file lies in the project but the run is NOT given --baseline (ratchet by flag, or by
+        [baseline] ratchet when the mode is upper case): nothing is loaded, nothing is grandfathered, the file is not touched"""
+        fl = {"b": self.bl is not None and not nob, "ff": ff and not self.ff_cfg, "wae": wae, "wo": wo}
+        rcfg = None
         if ratchet and self.bl is not None:
-            fl["rc"] = ratchet
+            if ratchet.isupper():
+                rcfg = ratchet.lower()
+            else:
+                fl["rc"] = ratchet
         if update:
             fl["u"] = update
         if update or (ratchet and self.bl is not None):
             write_disk(self.sb.proj, self.bl)      # the previous run may have rewritten the file: every run starts from the same one
-        self.sb.write(".sloc-guard.toml", self.cfg_ff if ff else self.cfg_noff)
+        self.sb.write(".sloc-guard.toml", (self.cfg_ff if ff else self.cfg_noff) + ('[baseline]\nratchet = "%s"\n' % RM[rcfg] if rcfg else ""))
         self.spawns += 1
         rc, out, err = self.sb.run(self.exe, cli_args(fl, files), env={"RAYON_NUM_THREADS": str(threads)})
         self.last_disk = read_disk(self.sb.proj)
@@ -366,6 +385,18 @@ class BigProject:
         for r in obs:
             r["hash"] = self.res.get(r["path"], {}).get("hash", "")
         return rc, obs, out
+
+    def spec(self, files, nob, wae, wo):
+        """the verdict of a run without ratchet-strict effects, from the independent evaluation of the files and the KEYS of the
+        loaded baseline: (statuses by path, exit). An entry grandfathers the file at its path and no other."""
+        loaded = None if (self.bl is None or nob) else {norm_key(k) for k in self.bl}
+        st = {}
+        for p in (files if files is not None else self.paths):
+            if p in self.res and not (files is None and os.path.islink(os.path.join(self.sb.proj, p))):
+                s0 = self.res[p]["status"]
+                st[p] = "G" if (s0 == "F" and loaded is not None and norm_key(p) in loaded) else s0
+        ex = 0 if wo else (1 if ("F" in st.values() or (wae and "W" in st.values())) else 0)
+        return {"status": st, "exit": ex}
 
     def close(self):
         self.sb.close()
@@ -389,7 +420,7 @@ def placements(k, rng=None, limit=None):
     return out
 
 
-def trace_case(exe, sizes, bl_idx, orders, threads_list, reps, ff_cfg, wae, wo, full_scan=False, ratchet=None, ghosts=0, update=None):
+def trace_case(exe, sizes, bl_idx, orders, threads_list, reps, ff_cfg, wae, wo, full_scan=False, ratchet=None, ghosts=0, update=None, nob=False):
     """One project, several fail-fast runs. Returns list of trace dicts. [ratchet] = --ratchet mode of every run
     (w / a / s), [ghosts] = number of baseline entries whose file no longer exists, [update] = --update-baseline mode of every run."""
     pj = BigProject(exe, sizes, bl_idx, ff_cfg=ff_cfg, ghosts=ghosts)
@@ -397,7 +428,7 @@ def trace_case(exe, sizes, bl_idx, orders, threads_list, reps, ff_cfg, wae, wo, 
     try:
         for order in orders:
             files = None if full_scan else [pj.paths[i] for i in order]
-            rc0, obs0, raw0 = pj.run(False, files, 1, wae, wo, ratchet, update)
+            rc0, obs0, raw0 = pj.run(False, files, 1, wae, wo, ratchet, update, nob)
             disk_noff = pj.last_disk
             R = [pre(r) for r in obs0]
             # independent evaluation of every listed file: the run without fail-fast must agree with it
@@ -408,12 +439,13 @@ def trace_case(exe, sizes, bl_idx, orders, threads_list, reps, ff_cfg, wae, wo, 
             eval_diff = {"reported but not expected": [x for x in got if x not in want][:2], "expected but not reported": [x for x in want if x not in got][:2]}
             for th in threads_list:
                 for _ in range(reps):
-                    rc, obs, raw = pj.run(True, files, th, wae, wo, ratchet, update)
+                    rc, obs, raw = pj.run(True, files, th, wae, wo, ratchet, update, nob)
                     out.append({"sizes": sizes, "baseline": bl_idx, "order": list(order) if order is not None else None, "threads": th, "ff_cfg": ff_cfg,
                                 "wae": wae, "wo": wo, "R": R, "Rp": [pre(r) for r in obs], "obs": obs, "exit": rc, "exit_noff": rc0,
                                 "disk": pj.bl, "full_scan": full_scan, "eval_ok": eval_ok, "eval_diff": eval_diff,
                                 "ratchet": ratchet if pj.bl is not None else None, "ghosts": ghosts, "ghost_keys": list(pj.ghost_keys),
-                                "disk1": pj.last_disk, "disk1_noff": disk_noff, "update": update})
+                                "disk1": pj.last_disk, "disk1_noff": disk_noff, "update": update, "nob": nob, "obs0": obs0,
+                                "spec": pj.spec(files, nob, wae, wo)})
         return out, pj.spawns
     finally:
         pj.close()
@@ -423,11 +455,13 @@ def validate_traces(model, traces):
     """Model side of the trace validation. Fills t['ffsub'], t['seq_ok'], t['model_exit']."""
     l1, l2, l3 = [], [], []
     for t in traces:
-        ob = w_bl(view(t["disk"]))   # ff_sub / ff_seq take the loaded (re-keyed) baseline, check_step the file
+        ob = w_bl(None if t.get("nob") else view(t["disk"]))   # ff_sub / ff_seq take the loaded (re-keyed) baseline, check_step the file
         l1.append("ffsub\t%s\t%s\t%s" % (w_results(t["R"]), w_results(t["Rp"]), ob))
         # the loop runs over the files only; structure results are appended afterwards (C11_structure_results_appended)
         l2.append("ffseq\t%s\t%s" % (w_results([r for r in t["R"] if r["kind"] in ("n", "c")]), ob))
-        fl = {"b": t["disk"] is not None, "wae": t["wae"], "wo": t["wo"], "ff": True, "rc": t.get("ratchet"), "u": t.get("update")}
+        rt = t.get("ratchet")
+        fl = {"b": t["disk"] is not None and not t.get("nob"), "wae": t["wae"], "wo": t["wo"], "ff": True, "rc": rt if (rt and rt.islower()) else None,
+              "rg": rt.lower() if (rt and rt.isupper()) else None, "u": t.get("update")}
         # a directory scan sees that the files of the ghost entries are gone (EvaluatedPaths::covers); a --files run does not
         gone = t.get("ghost_keys") if t.get("full_scan") else None
         l3.append("step\t%s\t%s\t%s\t%s" % (w_flags(fl), w_results(t["Rp"]), w_keys(gone) if gone else "_", w_bl(t["disk"])))
@@ -670,6 +704,41 @@ def error_entry_phase(ctx, bins, model, quick=True):
     return {"traces": len(traces), "findings": findings, "mismatches": tie, "spawns": spawns}
 
 
+# ------------------------------------------------------------------ a recorded file renamed / copied: the entry stays with its path (C09 non-masking)
+
+def moved_file_phase(ctx, bins, model, quick=True):
+    """The baseline records src/wasNN.rs, which no longer exists; a file with exactly the recorded bytes (same SHA-256, same line
+    count) fails at ANOTHER path. That path is not recorded: the violation is reported failed and the run exits 1, in a --files run
+    and in a directory scan, with and without fail-fast, next to genuinely grandfathered files (class m of BigProject)."""
+    exe = bins["sgcli"]
+    cases = [("m", None, False), ("mu", [], True), ("om", [0], False), ("gmw", [0], True), ("mo", [1], False)] + ([] if quick else [("mm", None, True), ("uomo", [1, 3], False), ("kmu", [0], True)])
+    traces, spawns, findings, tie = [], 0, [], []
+    for i, (sizes, bl, full) in enumerate(cases):
+        orders = [None] if full else list(itertools.permutations(range(len(sizes))))
+        tr, sp = trace_case(exe, sizes, bl, orders, [1, 4], 1, i % 2 == 1, False, False, full)
+        traces += tr
+        spawns += sp
+    validate_traces(model, traces)
+    for t in traces:
+        slimt = {k2: t[k2] for k2 in ("sizes", "baseline", "order", "threads", "ff_cfg", "wae", "wo", "full_scan", "exit", "exit_noff")}
+        slimt["observed"] = [r["path"] + ":" + r["status"] for r in t["obs"]]
+        slimt["observed_without_fail_fast"] = [r["path"] + ":" + r["status"] for r in t["obs0"]]
+        slimt["baseline_entries"] = {k: list(e) for k, e in (t["disk"] or {}).items()}
+        sp_ = t["spec"]
+        for label, obs, rc in (("without fail-fast", t["obs0"], t["exit_noff"]), ("with fail-fast", t["obs"], t["exit"])):
+            bad = [r for r in obs if r["kind"] in ("n", "c") and sp_["status"].get(r["path"]) == "F" and r["status"] != "F"]
+            if bad:
+                findings.append({"prop": "C09", "class": None, "trace": slimt,
+                                 "what": "unrecorded_always_fails: %s (not a key of the baseline; the entry with its hash belongs to a path that is gone) reported %s %s" % (bad[0]["path"], bad[0]["status"], label)})
+                break
+            if sp_["exit"] == 1 and rc != 1:
+                findings.append({"prop": "C09", "class": None, "trace": slimt, "what": "unrecorded_always_fails: exit %d %s although an unrecorded violation exists" % (rc, label)})
+                break
+        if not t["ffsub"] or t["exit"] != t["model_exit"]:
+            tie.append({"what": "renamed recorded file: fail-fast run not ff_sub of the full run, or exit differs from the model", "trace": slimt})
+    return {"traces": len(traces), "findings": findings, "mismatches": tie, "spawns": spawns}
+
+
 # ------------------------------------------------------------------ runs from a sub-directory of the project (C10)
 
 def _tree(base, skip=()):
@@ -878,6 +947,83 @@ def custom_baseline_phase(ctx, bins, model):
             # the witness of the known finding no longer reproduces: say so (the entry must go)
             mism.append({"what": "known finding K09_custom_baseline_in_tree no longer reproduces: %s" % o})
     return {"steps": steps, "findings": findings, "mismatches": mism, "spawns": steps}
+
+
+# ------------------------------------------------------------------ a recorded file below a directory the run cannot read (C10, fix D140)
+
+def unreadable_dir_phase(ctx, bins, model):
+    """Entries for src/secret/a.rs and src/b.rs (both still over the limit); `chmod 000 src/secret`; the run has no privilege to
+    look inside (as root it drops to uid 65534 with setpriv). The scan cannot evaluate src/secret/a.rs and cannot tell whether it
+    exists: its entry must not be reported stale (strict: exit 0) nor removed (auto). An entry whose file really is gone
+    (src/gone.rs) is still stale in the same run."""
+    findings, mism, steps = [], [], 0
+    if os.geteuid() == 0 and not shutil.which("setpriv"):
+        return {"steps": 0, "findings": [], "mismatches": [], "spawns": 0, "skipped": "root without setpriv"}
+    drop = ["setpriv", "--reuid=65534", "--regid=65534", "--clear-groups"] if os.geteuid() == 0 else []
+    for mode, with_gone, threads in (("s", False, 1), ("a", False, 4), ("a", True, 1), ("s", True, 1), ("w", True, 1)):
+        sb = Sandbox(prefix="sgv-unr-")
+        secret = os.path.join(sb.proj, "src", "secret")
+        try:
+            exe = os.path.join(sb.base, "sgcli")
+            shutil.copy2(bins["sgcli"], exe)
+            sb.write(".sloc-guard.toml", 'version = "2"\n[scanner]\nexclude = [".sloc-guard*"]\n[content]\nmax_lines = 10\nextensions = ["rs"]\n')
+            texts = {"src/secret/a.rs": body("src/secret/a.rs", 12), "src/b.rs": body("src/b.rs", 12), "src/c.rs": body("src/c.rs", 3)}
+            for f, t in texts.items():
+                sb.write(f, t)
+            if with_gone:
+                sb.write("src/gone.rs", body("src/gone.rs", 13))
+            sb.run(bins["sgcli"], cli_args({"u": "a"}))
+            if with_gone:
+                os.remove(os.path.join(sb.proj, "src/gone.rs"))
+            for dp, dn, fn in os.walk(sb.base):
+                os.chmod(dp, 0o777)
+                for f in fn:
+                    os.chmod(os.path.join(dp, f), 0o777 if f == "sgcli" else 0o666)
+            d0 = read_disk(sb.proj)
+            os.chmod(secret, 0)
+            fl = {"b": True, "rc": mode}
+            a = drop + [exe] + cli_args(fl) + ["."]
+            rc, out, err = sb.run(a[0], a[1:], env={"RAYON_NUM_THREADS": str(threads)})
+            steps += 1
+            os.chmod(secret, 0o755)
+            d1 = read_disk(sb.proj)
+            try:
+                obs, _ = parse_json_results(out)
+            except Exception:
+                obs = []
+            for r in obs:
+                r["hash"] = hashlib.sha256(texts[norm_key(r["path"])].encode()).hexdigest() if norm_key(r["path"]) in texts else ""
+            stale = parse_stale(err) or []
+            shape = {"unreadable_dir": "src/secret (mode 000, run as uid 65534)" if drop else "src/secret (mode 000)", "ratchet": RM[mode], "threads": threads,
+                     "entries_before": sorted(d0 or {}), "entries_after": sorted(d1 or {}), "stale_reported": stale, "exit": rc,
+                     "results": [r["path"] + ":" + r["status"] for r in obs], "deleted_recorded_file": "src/gone.rs" if with_gone else None}
+            seen = any(norm_key(r["path"]) == "src/secret/a.rs" for r in obs)
+            if seen:
+                mism.append({"what": "unreadable directory: src/secret/a.rs was evaluated (the privilege drop did not work?)", "trace": shape})
+                continue
+            removed = sorted(set(d0 or {}) - set(d1 or {}))
+            if "src/secret/a.rs" in stale or "src/secret/a.rs" in removed:
+                findings.append({"prop": "C10", "class": None, "trace": shape,
+                                 "what": "stale_only_if_evaluated_and_resolved: src/secret/a.rs %s although the run could not look into src/secret (the file exists, has 12 lines, limit 10)" % (
+                                     "removed from the baseline" if "src/secret/a.rs" in removed else "reported stale")})
+            want_stale = ["src/gone.rs"] if with_gone else []
+            if (removed if mode == "a" else stale) != want_stale or (mode != "a" and removed):
+                if not ("src/secret/a.rs" in stale or "src/secret/a.rs" in removed):
+                    findings.append({"prop": "C10", "class": None, "trace": shape, "what": "unreadable directory: stale/removed %s, expected %s" % (removed if mode == "a" else stale, want_stale)})
+            want_exit = 1 if (mode == "s" and with_gone) else 0
+            if rc != want_exit and not ("src/secret/a.rs" in stale):
+                findings.append({"prop": "C10", "class": None, "trace": shape, "what": "strict_fails_only_for_resolved: exit %d, expected %d" % (rc, want_exit)})
+            mo, _, _ = run_lines(model, ["step\t%s\t%s\t%s\t%s" % (w_flags(fl), w_results([pre(r) for r in obs]), w_keys(want_stale) if want_stale else "_", w_bl(d0))])
+            f = mo[0].split("\t")
+            if (f[1], f[2]) != (str(rc), w_bl(d1)):
+                mism.append({"what": "unreadable directory: exit %d entries %s; model %s" % (rc, sorted(d1 or {}), mo[0][:200]), "trace": shape})
+        finally:
+            try:
+                os.chmod(secret, 0o755)
+            except OSError:
+                pass
+            sb.close()
+    return {"steps": steps, "findings": findings, "mismatches": mism, "spawns": steps * 2}
 
 
 # ------------------------------------------------------------------ two overlapping runs on one baseline file (C10, known finding D87)
